@@ -216,7 +216,7 @@ def gen_history(rng, nops):
 class C07(Prop):
     id = "C07"
     level = "exploration"
-    RUNS = {"quick": 3000, "thorough": 60000}
+    RUNS = {"quick": 6000, "thorough": 60000}
     BUDGET = {"quick": 75, "thorough": 900}
     ORACLES = ("C07", "O-IMMUT")
     RULE = ("seeded histories of 5-40 operations over 1-4 leaf functions (differentiable or not) and their combinations "
